@@ -150,5 +150,6 @@ func main() {
 		genWf(p, *out)
 		genWire(p, *out)
 		genWireDec(p, *out)
+		genBuf(p, *out)
 	}
 }
